@@ -386,6 +386,64 @@ func runC15(r *Run) {
 	}
 
 	// sibling clauses decided by the same rule code as C14 and C02
+	r.Rule("R8", "ERR.state-errors-not-dropped: in consensus scope the error returned by a state-changing keeper call — a method of a bank/staking/distribution/authz/account keeper (concrete or through the module's expected-keeper interface) or of a message server, other than Get*/Has*/Is*/Iterate* readers — is never discarded (unused result, or assigned to the blank identifier): a failed coin movement that is ignored lets the caller go on as if the coins had moved, which is how module accounts and their records drift apart")
+	{
+		sc := scopesOf(r)
+		nCalls, nBad := 0, 0
+		for _, fn := range sc.S.HaqqFuncs() {
+			if isTestSupport(P, fn) || isGeneratedFile(P.FileOf(fnPos(fn))) || strings.Contains(fnPkgPath(fn), "/client/") {
+				continue
+			}
+			eachInstr(fn, func(in ssa.Instruction) {
+				c, ok := in.(ssa.CallInstruction)
+				if !ok {
+					return
+				}
+				if _, isDefer := in.(*ssa.Defer); isDefer {
+					return
+				}
+				ci := callInfo(c)
+				if ci.Obj == nil || ci.Recv == "" {
+					return
+				}
+				isKeeperLike := strings.HasSuffix(ci.Recv, "Keeper") || ci.Recv == "MsgServer" || ci.Recv == "msgServer" || ci.Recv == "BaseKeeper"
+				if !isKeeperLike {
+					return
+				}
+				n := ci.Name
+				if strings.HasPrefix(n, "Get") || strings.HasPrefix(n, "Has") || strings.HasPrefix(n, "Is") || strings.HasPrefix(n, "Iterate") || strings.HasPrefix(n, "Query") {
+					return
+				}
+				sig := c.Common().Signature()
+				if sig == nil || sig.Results().Len() == 0 || !isErrorType(sig.Results().At(sig.Results().Len()-1).Type()) {
+					return
+				}
+				nCalls++
+				v := c.Value()
+				used := false
+				if v != nil && v.Referrers() != nil {
+					if sig.Results().Len() == 1 {
+						used = len(*v.Referrers()) > 0
+					} else {
+						for _, ref := range *v.Referrers() {
+							if ex, ok := ref.(*ssa.Extract); ok && ex.Index == sig.Results().Len()-1 && ex.Referrers() != nil && len(*ex.Referrers()) > 0 {
+								used = true
+							}
+						}
+					}
+				}
+				if !used {
+					nBad++
+					r.Bad("R8", fmt.Sprintf("%s#drops-error-of-%s.%s", fnID(fn), ci.Recv, ci.Name), P.Pos(instrPos(in)), "the error returned by "+ci.String()+" is discarded in consensus-reachable code", sc.S.Chain(fn)...)
+				}
+			})
+		}
+		r.Count("R8 error-returning state-changing keeper calls in consensus scope", nCalls)
+		if nBad == 0 {
+			r.OK("R8", "scope-S", "", fmt.Sprintf("%d error-returning state-changing keeper calls in consensus scope, none discards its error", nCalls))
+		}
+		r.Floor("R8", "error-returning state-changing keeper calls in consensus scope", nCalls, 100)
+	}
 	r.Rule("R7", "see C12 R5 (same rule code): every module account of maccPerms is a blocked address — the distribution, staking-pool and gov accounts cannot receive plain transfers, which their invariants (module balance = recorded amounts) need")
 	checkBlockedAddrs(r, "R7", "distribution")
 	r.Import("R4/C14.", []string{"R2"}, runC14)
